@@ -82,7 +82,7 @@ def _grid_cmd(thm):
     if thm == 'sizing_optimal':
         return head + body(['for x in fmts', 'for y in fmts'], 'Gen.%s %s true 9 3 5' % (gen, a2), 'sz (true, 3, 5)', '" optimal_size=(s,9,3,5)"') + tail
     if thm in ('sum_size', 'cumsum_size', 'trace_size', 'prod_size', 'cumprod_size'):
-        mf = 'prodFmt' if thm in ('prod_size', 'cumprod_size') else 'sumFmt'
+        mf = 'cumprodFmt' if thm == 'cumprod_size' else 'prodFmt' if thm == 'prod_size' else 'sumFmt'
         return head + body(['for x in fmts', 'for k in [1, 2, 3, 4, 5, 7, 8, 9, 16, 17]'], 'Gen.%s %s (k : Nat)' % (gen, a1),
                            'fmtT (%s x k)' % mf, 's!" k={k}"', ys='x') + tail
     if thm == 'dot_size':
